@@ -114,6 +114,13 @@ CLAIMED["C14"] = {
   "technique": "Lean 4 theorems over all states/numbers + exhaustive forked entry-point table",
 }
 
+CLAIMED["C15"] = {
+  "text": "Lean 4 theorems on the flag-action model L7 for every action list (registration order), every flag content and every arm/disarm history: if a delivery returns, a flag registered with flag::register holds true and one registered with register_usize holds its value, whatever the application wrote before; a delivery terminates the process iff some conditional shutdown's condition is true at the moment it is reached, then with exactly that status mod 256, without exit hooks, with no later action run; the documented 'shutdown first, arming flag second' pattern survives a delivery with the flag false (leaving it true) and dies on one with the flag true, the other order dies at once, disarming in between saves the process. Tied to /repo by random forked histories on the real flag::* functions with real raise()s, application writes, statuses incl. >255 and negative, an atexit marker, compared with the model and judged by the property monitor.",
+  "design_ref": "DESIGN.md section 6 C15",
+  "note": "Trusted: Lean kernel + audited axioms; actions run in registration order (C02/C05); waitpid status and atexit marker observed from a forked child; the caller-owned flags are std atomics (their SeqCst orderings are checked statically from the regenerated table, a weaker ordering that does not change SC behaviour is not flagged); register_conditional_default is covered by C16.",
+  "technique": "Lean 4 theorems by induction over action lists + forked differential histories",
+}
+
 NOT_YET = {}
 ALL = ["C%02d" % i for i in range(1, 19)]
 
